@@ -221,6 +221,7 @@ class SoupLines(Stream):
 from c02 import ScanForStart  # noqa: E402  (line counter of the off-region scanner)
 from line_ends import FileLineEnds  # noqa: E402
 from c11 import FetchDirect  # noqa: E402
+from value_error_lines import ValueErrorLines  # noqa: E402
 
 
 class ChoiceErrorLines(FetchDirect):
@@ -336,7 +337,7 @@ class ValidateLines(Stream):
 
 SPEC = {
     "clusters": ["Parse", "Tok", "Choice"],
-    "streams": [Lines, Labels, FileLineEnds, SoupLines, ScanForStart, ChoiceErrorLines, ValidateLines],
+    "streams": [Lines, Labels, FileLineEnds, SoupLines, ScanForStart, ChoiceErrorLines, ValidateLines, ValueErrorLines],
     "rule": "renderings of random abstract trees by the layout sampler, which records the line of every emitted name and word "
             "(multi-line quoted words, continuations, ';', comments, off regions), plus malformed variants with a known faulty token and line; "
             "plus token soup / mutated documents where implementation and model must report identical lines; distinct = distinct text",
